@@ -48,6 +48,18 @@ P6_STRIP = {"lang": ["__CPROVER_file_local_lang_c_lang_search"]}
 for n in ("p6_auto", "p6_wipe"):
     H(n, src="p_lang.c", tus=["lang", "dependency"], strip=P6_STRIP, flags=CAD + ["--unwind", "17"], cap=300, rss=3.0)
 
+H("p1_write", src="p_str.c", tus=["polyseed", "dependency"], flags=CAD + ["--unwind", "98"], cap=120, rss=1.0)
+H("p3_lazy", src="p_str.c", tus=["dependency"], flags=CAD + ["--unwind", "402"], cap=300, rss=2.0)
+H("p4_split", src="p_str.c", tus=["polyseed", "dependency"], flags=CAD, cap=600, rss=3.0)
+
+for n in ("t4_table", "t4_distinct", "t4_selffind"):
+    H(n, src="t_table.c", tus=["lang"], extra=["stubs/bsearch.c"], langdata=True,
+      flags=CAD + ["--unwind", "2050", "--object-bits", "14"], cap=600, rss=4.0)
+
+P2_STRIP = {"polyseed": ["__CPROVER_file_local_polyseed_c_write_str"]}
+H("p2_layout", src="p_encode.c", tus=API_TUS, strip=P2_STRIP, flags=CAD + ["--unwind", "2050", "--object-bits", "12"], cap=600, rss=6.0)
+H("c17_len", src="p_encode.c", tus=API_TUS, strip=P2_STRIP, langdata=True, flags=CAD + ["--unwind", "2050", "--object-bits", "12"], cap=900, rss=8.0)
+
 PROPS = {}
 
 
